@@ -18,6 +18,9 @@ pub struct Opts {
     /// probability (in 1/100) that an expression names the never-defined variable `u`
     pub undefined_pct: u32,
     pub allow_envdump: bool,
+    /// partial names may be given through the variable `pn` (main template only: a partial
+    /// using a dynamic name could name itself, and recursion is outside the stated bounds)
+    pub dynamic_names: bool,
 }
 
 impl Default for Opts {
@@ -31,6 +34,7 @@ impl Default for Opts {
             allow_toplevel_interrupt: false,
             undefined_pct: 2,
             allow_envdump: false,
+            dynamic_names: false,
         }
     }
 }
@@ -177,7 +181,7 @@ impl<'a> Gen<'a> {
             return Expr::str("nope");
         }
         let p = self.rng.pick(&self.o.partials).clone();
-        if self.rng.chance(1, 6) {
+        if self.o.dynamic_names && self.rng.chance(1, 6) {
             // dynamic name through a variable (data binds `pn` to a partial name)
             let _ = lv;
             Expr::var("pn")
@@ -433,6 +437,7 @@ pub fn scenario(rng: &mut Rng, n_partials: usize, with_broken: bool, opts: &Opts
         o.max_depth = opts.max_depth.saturating_sub(1).max(1);
         // partial bodies may break/continue at top level: include propagates it to the caller
         o.allow_toplevel_interrupt = true;
+        o.dynamic_names = false;
         let mut g = Gen::new(rng, o);
         let body = g.block(0, &[]);
         let mut src = to_source(&body, &mut style);
@@ -443,6 +448,7 @@ pub fn scenario(rng: &mut Rng, n_partials: usize, with_broken: bool, opts: &Opts
     }
     let mut o = opts.clone();
     o.partials = all_names.clone();
+    o.dynamic_names = true;
     o.allow_partials = opts.allow_partials && !all_names.is_empty();
     let mut g = Gen::new(rng, o);
     let body = g.block(0, &[]);
